@@ -186,7 +186,8 @@ fn s_sampled(t: &mut Tape, ctx: &mut Ctx) -> Result<(), Failure> {
         0 => valgen::gen_ty(t, &TyCfg { max_depth: 3, max_tuple: 5, max_array: 9, max_list_log2: 5, allow_builtin_alias: true, big_ints: true }, 0),
         1 => {
             let el = [Ty::unit(), Ty::Bool, Ty::UInt(8), Ty::UInt(2)][t.index(4)].clone();
-            let n = [31usize, 32, 33, 63, 64, 65, 100, 17, 16, 15][t.index(10)];
+            // sizes above 256 leave the range of the integer trees (round 5: C07-r5-A clamps the split there)
+            let n = [31usize, 32, 33, 63, 64, 65, 100, 17, 16, 15, 255, 256, 257, 300, 511, 513, 1000][t.index(17)];
             Ty::array(el, n)
         }
         _ => {
